@@ -36,6 +36,31 @@ pub enum Op {
 pub struct Program {
   pub tree: Spec,
   pub threads: Vec<Vec<Op>>,
+  /// Some(k): the shared tree is built through `build_observed` (observer k after every mutating call),
+  /// so its ReplaceSources have been observed, mutated again and only then shared
+  #[serde(default)]
+  pub warm: Option<u8>,
+}
+
+fn build_shared(p: &Program) -> BoxSource {
+  match p.warm {
+    None => build(&p.tree),
+    Some(k) => crate::build::build_observed(&p.tree, &mut |s| match k % 4 {
+      0 => {
+        let _ = s.source();
+      }
+      1 => {
+        let _ = s.size();
+      }
+      2 => {
+        let mut st = std::collections::hash_map::DefaultHasher::new();
+        s.update_hash(&mut st);
+      }
+      _ => {
+        let _ = s.map(&opts(true, false));
+      }
+    }),
+  }
 }
 
 #[derive(Clone, Debug, Serialize, Deserialize)]
@@ -124,7 +149,9 @@ fn op() -> BoxedStrategy<Op> {
 }
 
 fn program() -> BoxedStrategy<Program> {
-  (shared_tree(), vec(vec(op(), 1..=3), 2..=3)).prop_map(|(tree, threads)| Program { tree, threads }).boxed()
+  (shared_tree(), vec(vec(op(), 1..=3), 2..=3), prop_oneof![2 => Just(None), 1 => (0u8..4u8).prop_map(Some)])
+    .prop_map(|(tree, threads, warm)| Program { tree, threads, warm })
+    .boxed()
 }
 
 pub fn random_case() -> BoxedStrategy<Case> {
@@ -149,7 +176,7 @@ fn stress_case() -> BoxedStrategy<Case> {
 /// Run the program once with really parallel threads (no hooks), released by a barrier.
 fn execute_parallel(p: &Program) -> Vec<Vec<Answer>> {
   let n = p.threads.len();
-  let tree: BoxSource = build(&p.tree);
+  let tree: BoxSource = build_shared(p);
   let text = Arc::new(model_text(&p.tree));
   let answers: Arc<Mutex<Vec<Vec<Answer>>>> = Arc::new(Mutex::new(vec![vec![]; n]));
   let barrier = Arc::new(std::sync::Barrier::new(n));
@@ -375,7 +402,7 @@ pub struct RunOut {
 pub fn execute(p: &Program, schedule: &[u8], max_preemptions: u32) -> RunOut {
   let n = p.threads.len();
   let sched = Sched::new(n, schedule.to_vec(), max_preemptions);
-  let tree: BoxSource = build(&p.tree);
+  let tree: BoxSource = build_shared(p);
   let text = Arc::new(model_text(&p.tree));
   let answers: Arc<Mutex<Vec<Vec<Answer>>>> = Arc::new(Mutex::new(vec![vec![]; n]));
   let retained_err: Arc<Mutex<Vec<String>>> = Arc::new(Mutex::new(vec![]));
